@@ -138,6 +138,12 @@ func (d *Document) nextLexeme() (lex lexeme.LexEvent, err error) {
 	return lex, nil
 }
 
+// Rewind makes the next NextLexeme call start at the beginning of the document,
+// whatever was read before.
+func (d *Document) Rewind() {
+	d.rewind()
+}
+
 // rewind rewinds document to the beginning.
 func (d *Document) rewind() {
 	d.scanner = newScanner(d.file)
